@@ -39,7 +39,7 @@ def _run(shard):
             from vmc.checks.harness import debug_logging
 
             with debug_logging():
-                rep = _MOD.run_shard(shard[:-1], _TIER, _SEED)
+                rep = _MOD.run_shard(shard[1] if shard[0] == "@" else shard[:-1], _TIER, _SEED)
             rep.violations = {k + "/with-debug-logging": v for k, v in rep.violations.items()}
             rep.viol_counts = {k + "/with-debug-logging": v for k, v in rep.viol_counts.items()}
             rep.nontrivial = {__import__("hashlib").blake2b(h + b"dbg", digest_size=8).digest() for h in rep.nontrivial}
